@@ -554,6 +554,17 @@ def rule_lub_sequence(rep, sh):
                     bool(insb) and role_of(insb[0][2][0]) == 'Delta' and sb == ['Lub'] and bool(exb) and role_of(exb[0][2][0]) == 'Main' and \
                     bool(find_mk(b, 'Negation'))
                 det = 'step 2/3: Delta must receive lub(Main value, Lub value) when it differs for an equal key, or the Lub tuple when no Main tuple has the key'
+                # "differs" = NOT (every lattice column equals its lub): a tuple in which only SOME lattice columns grow must still reach Delta
+                lubcons = [c for c in subtrees(a) if c[0] == 'mk' and c[1] == 'Constraint' and any(y[0] == 'call' and y[1] == 'getLatticeTypeLubFunctor' for y in subtrees(c))]
+                ops = {c[2][0][1] if c[2] and c[2][0][0] == 'enum' else '?' for c in lubcons}
+                negf = [x for x in find_mk(a, 'Filter') if x[2][0][0] == 'mk' and x[2][0][1] == 'Negation' and
+                        any(y[0] == 'call' and y[1] == 'getLatticeTypeLubFunctor' for y in subtrees(x[2][0]))]
+                # (the evaluator does not model that `condition` is empty after std::move, so the later key-equality filter may
+                #  appear to contain the same constraints again: only the existence of the negated filter and the operators are required)
+                changed_ok = bool(negf) and ops == {'EQ'}
+                rep.ob('R1-lub-delta-when-any-column-changes', label, changed_ok, f.where,
+                       '' if changed_ok else 'the Delta update must be filtered by NOT(all lattice columns equal their lub); a conjunction of inequalities drops tuples '
+                       'in which only some lattice columns grow')
             rep.ob('R1-lub-delta-update', label, ok, f.where, '' if ok else det)
         else:
             ok = len(rest) == 1 and rest[0][0] == 'mk' and rest[0][1] == 'Query'
